@@ -207,4 +207,162 @@ theorem execOp_dec (E : Env) (δ : Nat) (C : Ctx E δ) (s : St) (g : Good E δ s
     · simp only [hl, if_true, newThread, Bool.false_eq_true, if_false]
       exact key _ rfl hexc hub rfl rfl
 
+theorem step_dec (E : Env) (δ : Nat) (C : Ctx E δ) (s : St) (g : Good E δ s) (hnh : halted s = false) :
+    let N := E.cfg.maxExec / δ + 1
+    let D := E.cfg.maxDepth
+    TopFetch δ E.cfg.maxExec (step E s) ∧ phi N D (step E s) < phi N D s := by
+  intro N D
+  have hub : s.ub = false := by simp [halted] at hnh; exact hnh.2
+  have hne : s.stack ≠ [] := by simp [halted] at hnh; exact hnh.1
+  have hN1 : 1 ≤ N := Nat.succ_le_succ (Nat.zero_le _)
+  cases hst : s.stack with
+  | nil => exact absurd hst hne
+  | cons f rest =>
+    have hsg := g.gs.stack
+    rw [hst] at hsg
+    have hlow : lowOK rest := hsg.2
+    have hpl := pot_ge_length N D rest
+    have tfRest : ∀ s' : St, s'.stack = rest → TopFetch δ E.cfg.maxExec s' := by
+      intro s' h1; apply topFetch_of_low; rw [h1]; exact hlow
+    cases hexc : s.exc with
+    | some e =>
+      have ha := g.gs.exc e hexc
+      obtain ⟨h1, h2, h3⟩ := unwind_step E s e f rest hst hexc ha (fun _ => C.prot) hub
+      refine ⟨tfRest _ h1, ?_⟩
+      rw [phi_exc h3 h2, phi_exc hub hexc, h1, hst]
+      simp
+    | none =>
+      have hstep : step E s = runFrame E s f rest := by simp [step, hub, hst, hexc]
+      have hold := phi_norm (N := N) (D := D) hub hexc
+      rw [hst] at hold
+      rw [hstep]
+      cases f with
+      | notify p => exact hsg.1.elim
+      | thrExec =>
+        refine ⟨tfRest _ rfl, ?_⟩
+        rw [phi_norm (s := runFrame E s .thrExec rest) hub hexc, hold]
+        simp [runFrame, pot]
+      | ctxExec =>
+        refine ⟨tfRest _ rfl, ?_⟩
+        rw [phi_norm (s := runFrame E s .ctxExec rest) hub hexc, hold]
+        simp [runFrame, pot]
+      | sei t saved =>
+        simp only [runFrame, execRunningCall]
+        split
+        · refine ⟨tfRest _ rfl, ?_⟩
+          rw [phi_norm (by exact hub) (by exact hexc), hold]; simp [pot]
+        · split
+          · refine ⟨by (intro t' dl' ct' n' r' hst' _; cases hst'), ?_⟩
+            rw [phi_norm (by exact hub) (by exact hexc), hold]; simp [pot]
+          · refine ⟨tfRest _ rfl, ?_⟩
+            rw [phi_norm (by exact hub) (by exact hexc), hold]; simp [pot]
+      | execRunning =>
+        simp only [runFrame]
+        split
+        · rename_i tm hnx
+          obtain ⟨_, htm⟩ := Timer.next_none hnx
+          refine ⟨tfRest _ rfl, ?_⟩
+          rw [phi_norm (by exact hub) (by exact hexc), hold]
+          simp [pot, htm]
+        · rename_i t d tm hnx
+          obtain ⟨i, hi, _, _, htm⟩ := Timer.next_some hnx
+          have hlen : tm.elems.length + 1 = s.timer.elems.length := by
+            have hil : i < s.timer.elems.length := by
+              have := List.getElem?_eq_some_iff.mp hi; exact this.1
+            rw [htm]; simp [List.length_eraseIdx, hil]; omega
+          split
+          · -- Resume(): the thread's VM is entered at the top level
+            generalize hs2 : ({ s with cur := some t, timer := tm, threads := upd s.threads t (fun x => { x with ts := TState.running }) } : St) = s2
+            have e1 : s2.stack = .execRunning :: rest := by rw [← hs2]; exact hst
+            have e2 : s2.exc = none := by rw [← hs2]; exact hexc
+            have e3 : s2.ub = false := by rw [← hs2]; exact hub
+            have e5 : s2.timer = tm := by rw [← hs2]
+            by_cases hd : s2.depth > E.cfg.maxDepth
+            · obtain ⟨a1, _, a3, _, a5, _⟩ := enterVM_over E s2 t hd
+              refine ⟨by (intro t' dl' ct' n' r' hst' _; rw [a1, e1] at hst'; cases hst'), ?_⟩
+              rw [phi_exc (by rw [a5]; exact e3) a3, a1, e1, hold]
+              simp only [List.length_cons, pot]
+              have : 1 ≤ s.timer.elems.length * Cw N D := by
+                rw [← hlen]; simp [Cw, Nat.add_mul]; omega
+              omega
+            · obtain ⟨dl, ct, a1, _, a3, _, a5, _⟩ := enterVM_ok E s2 t hd
+              have a6 : (enterVM E s2 t).timer = tm := by
+                rw [← e5]; simp only [enterVM, hd, if_false]; split <;> simp [tick]
+              refine ⟨?_, ?_⟩
+              · intro t' dl' ct' n' r' hst' _
+                rw [a1] at hst'; cases hst'
+                simp only [Nat.zero_mul]; exact Nat.pos_of_ne_zero C.hL
+              · rw [phi_norm (by rw [a5]; exact e3) (by rw [a3]; exact e2), a1, e1, a6, hold, ← hlen]
+                simp only [pot, vmCount, Nat.sub_zero, Bool.false_eq_true, if_false, Nat.add_mul, Nat.one_mul]
+                have hW : W N (D - vmCount rest) ≤ W N D := W_mono N hN1 (Nat.sub_le _ _)
+                have := Nat.mul_le_mul_left N hW
+                simp only [Cw]
+                omega
+          · refine ⟨by intro t' dl' ct' n' r' hst' hr'; exact g.tf t' dl' ct' n' r' (by simpa [setUb] using hst') (by simpa [setUb, vmRunning] using hr'), ?_⟩
+            rw [hold]; simp [phi, setUb, pot]; omega
+      | vm t dl ct post n =>
+        simp only [runFrame]
+        have htop := g.ok _ (by rw [hst]; exact List.mem_cons_self)
+        simp only [FrameOK] at htop
+        split
+        · rename_i hpost
+          subst hpost
+          split
+          · -- the check fires
+            refine ⟨by (intro t' dl' ct' n' r' hst' _; rw [hst] at hst'; cases hst'), ?_⟩
+            rw [phi_exc (e := Exc.overflow) (by exact hub) rfl, hst, hold]
+            simp only [List.length_cons, pot, if_true]
+            omega
+          · rename_i hnf
+            refine ⟨?_, ?_⟩
+            · intro t' dl' ct' n' r' hst' hr'
+              cases hst'
+              have hr : vmRunning s t = true := by simpa [vmRunning, tick] using hr'
+              have hlt : ct < dl := by
+                apply Nat.lt_of_not_le
+                intro hle
+                exact hnf ⟨htop.1, hle, hr⟩
+              have h3 := htop.2.2
+              simp at h3
+              omega
+            · rw [phi_norm (by exact hub) (by exact hexc), hold]
+              simp [pot, tick]
+        · rename_i hpost
+          have hpf : post = false := by simpa using hpost
+          subst hpf
+          have hexit : TopFetch δ E.cfg.maxExec (exitVM s t rest) ∧ phi N D (exitVM s t rest) < pot N D (Frame.vm t dl ct false n :: rest) + s.timer.elems.length * Cw N D := by
+            refine ⟨tfRest _ rfl, ?_⟩
+            rw [phi_norm (by exact hub) (by exact hexc)]
+            simp [exitVM, pot]
+          split
+          · rw [hold]; exact hexit
+          · rename_i th hth
+            split
+            · rw [hold]; exact hexit
+            · rename_i hvs
+              have hrun : vmRunning s t = true := by
+                have : th.vs = VState.running := by simpa using hvs
+                simp [vmRunning, hth, this]
+              exact execOp_dec E δ C s g t th dl ct n rest _ (nest_op C.cls _ _) hst hexc hub hrun
+
+theorem good_step (E : Env) (δ : Nat) (C : Ctx E δ) (s : St) (g : Good E δ s) (hnh : halted s = false) :
+    Good E δ (step E s) :=
+  ⟨step_inv E s 0 g.inv, step_allOK E δ C.hL C.inc s g.ok, step_good E C.cls C.prot s g.gs, (step_dec E δ C s g hnh).1⟩
+
+/-- a good state halts within `phi` steps -/
+theorem halts_within (E : Env) (δ : Nat) (C : Ctx E δ) : ∀ (b : Nat) (s : St), Good E δ s →
+    phi (E.cfg.maxExec / δ + 1) E.cfg.maxDepth s ≤ b → ∃ n, n ≤ b ∧ halted (run E n s) = true
+  | 0, s, g, hb => by
+    by_cases hh : halted s = true
+    · exact ⟨0, Nat.le_refl _, hh⟩
+    · have := (step_dec E δ C s g (by simpa using hh)).2
+      omega
+  | b + 1, s, g, hb => by
+    by_cases hh : halted s = true
+    · exact ⟨0, Nat.zero_le _, hh⟩
+    · have hnh : halted s = false := by simpa using hh
+      have hd := (step_dec E δ C s g hnh).2
+      obtain ⟨n, hn, hr⟩ := halts_within E δ C b (step E s) (good_step E δ C s g hnh) (by omega)
+      exact ⟨n + 1, by omega, hr⟩
+
 end Morfuse.Unwind
